@@ -176,7 +176,7 @@ func runC12(r *Run) {
 		}
 		c12Check(r, kind, v, "")
 		c12EncodeCorrespond(r, kind, v)
-		if kind == "select" || kind == "operation" {
+		if recodedWire[kind] {
 			if e, err := json.Marshal(v); err == nil {
 				recodeCorrespond(r, "recode-model", kind, e)
 			}
@@ -222,9 +222,7 @@ func c12Schemas(r *Run, n int) {
 			key = kind + string(text)
 		}
 		r.Case("schema:"+kind, key)
-		if kind != "schema" {
-			recodeCorrespond(r, "recode-model", kind, text)
-		}
+		recodeCorrespond(r, "recode-model", kind, text)
 		t := wireTargets[kind]()
 		if err := json.Unmarshal(text, t); err != nil {
 			r.Violation("schema:"+kind, cs, err.Error(), "decodes", true, "a valid "+kind+" is rejected", "")
@@ -690,12 +688,196 @@ func recodeCorrespond(r *Run, stream, kind string, text []byte) {
 		}
 		return
 	}
+	if iv, ok := renderDecoded(kind, val); ok {
+		a, _ := json.Marshal(dropNulls(iv, true))
+		b, _ := json.Marshal(dropNulls(canonModelDeep(mo.Val), true))
+		if string(a) != string(b) {
+			r.Violation(stream, cs, string(a), string(b), false, "decoded "+kind+" differs between implementation and model", "")
+		}
+		return
+	}
 	e, err := json.Marshal(val)
 	if err != nil {
 		r.Violation(stream, cs, err.Error(), string(mo.Reencoded), false, "implementation cannot encode what it decoded", "")
 		return
 	}
-	if a, b := canonText(e), canonText(mo.Reencoded); a != b {
+	a, b := canonText(e), canonText(mo.Reencoded)
+	if kind == "schema" {
+		// a nil map of the implementation is encoded as null, the model's empty association list as {}
+		a, b = canonNullText(a), canonNullText(b)
+	}
+	if a != b {
 		r.Violation(stream, cs, a, b, false, "re-encoding of a decoded "+kind+" differs between implementation and model", "")
 	}
+}
+
+// renderDecoded: decoded values of the struct-typed wire kinds in the form the model driver prints them
+func renderDecoded(kind string, val interface{}) (interface{}, bool) {
+	rowJ := func(row *ovsdb.Row) interface{} {
+		if row == nil {
+			return nil
+		}
+		o := map[string]interface{}{}
+		for k, e := range *row {
+			o[k] = goValJ(e)
+		}
+		return o
+	}
+	ru2 := func(u *ovsdb.RowUpdate2) interface{} {
+		if u == nil {
+			return nil
+		}
+		return map[string]interface{}{"initial": rowJ(u.Initial), "insert": rowJ(u.Insert), "modify": rowJ(u.Modify), "delete": rowJ(u.Delete)}
+	}
+	tu2 := func(t ovsdb.TableUpdates2) interface{} {
+		out := map[string]interface{}{}
+		for tn, rows := range t {
+			m := map[string]interface{}{}
+			for u, x := range rows {
+				m[u] = ru2(x)
+			}
+			out[tn] = m
+		}
+		return out
+	}
+	switch t := val.(type) {
+	case ovsdb.OperationResult:
+		rows := []interface{}{}
+		for i := range t.Rows {
+			rows = append(rows, rowJ(&t.Rows[i]))
+		}
+		return map[string]interface{}{"count": t.Count, "error": t.Error, "details": t.Details, "uuid": t.UUID.GoUUID, "rows": rows}, true
+	case ovsdb.TableUpdates:
+		out := map[string]interface{}{}
+		for tn, rows := range t {
+			m := map[string]interface{}{}
+			for u, x := range rows {
+				if x == nil {
+					m[u] = nil
+					continue
+				}
+				m[u] = map[string]interface{}{"new": rowJ(x.New), "old": rowJ(x.Old)}
+			}
+			out[tn] = m
+		}
+		return out, true
+	case ovsdb.TableUpdates2:
+		return tu2(t), true
+	case ovsdb.MonitorCondSinceReply:
+		return []interface{}{t.Found, t.LastTransactionID, tu2(t.Updates)}, true
+	case ovsdb.MonitorRequest:
+		cols := []interface{}{}
+		for _, c := range t.Columns {
+			cols = append(cols, c)
+		}
+		wh := []interface{}{}
+		for _, x := range t.Where {
+			wh = append(wh, []interface{}{x.Column, string(x.Function), goValJ(x.Value)})
+		}
+		var sel interface{}
+		if t.Select != nil {
+			b, _ := json.Marshal(t.Select)
+			var m map[string]interface{}
+			_ = json.Unmarshal(b, &m)
+			sel = map[string]interface{}{"initial": m["initial"], "insert": m["insert"], "delete": m["delete"], "modify": m["modify"]}
+		}
+		return map[string]interface{}{"columns": cols, "where": wh, "select": sel}, true
+	}
+	return nil, false
+}
+
+// canonModelDeep applies canonModelVal wherever a decoded value sits inside the model's output
+func canonModelDeep(x interface{}) interface{} {
+	switch t := x.(type) {
+	case map[string]interface{}:
+		if len(t) == 1 {
+			for k := range t {
+				if k == "raw" || k == "uuid" || k == "set" || k == "map" {
+					return canonModelVal(x)
+				}
+			}
+		}
+		out := map[string]interface{}{}
+		for k, v := range t {
+			out[k] = canonModelDeep(v)
+		}
+		return out
+	case []interface{}:
+		out := make([]interface{}, len(t))
+		for i, v := range t {
+			out[i] = canonModelDeep(v)
+		}
+		return out
+	}
+	return x
+}
+
+// dropNulls removes null members of objects (a nil pointer in a Go map / an absent optional member) and, when
+// emptyToo is set, null elements that stand for absent row updates
+func dropNulls(x interface{}, top bool) interface{} {
+	switch t := x.(type) {
+	case map[string]interface{}:
+		if len(t) == 1 {
+			if _, raw := t["raw"]; raw {
+				return x // a decoded JSON atom: null is a value there
+			}
+		}
+		out := map[string]interface{}{}
+		for k, v := range t {
+			if v == nil {
+				continue
+			}
+			out[k] = dropNulls(v, false)
+		}
+		return out
+	case []interface{}:
+		out := make([]interface{}, len(t))
+		for i, v := range t {
+			out[i] = dropNulls(v, false)
+		}
+		return out
+	}
+	return x
+}
+
+// canonNullText: JSON text with null members dropped and null / {} maps identified
+func canonNullText(s string) string {
+	var t interface{}
+	if err := json.Unmarshal([]byte(s), &t); err != nil {
+		return s
+	}
+	var walk func(x interface{}) interface{}
+	walk = func(x interface{}) interface{} {
+		switch a := x.(type) {
+		case map[string]interface{}:
+			out := map[string]interface{}{}
+			for k, v := range a {
+				w := walk(v)
+				if w == nil {
+					continue
+				}
+				if m, ok := w.(map[string]interface{}); ok && len(m) == 0 && (k == "columns" || k == "tables") {
+					continue
+				}
+				if arr, ok := w.([]interface{}); ok && k == "indexes" { // a nil []string is encoded as null, the model's [] as []
+					for i := range arr {
+						if arr[i] == nil {
+							arr[i] = []interface{}{}
+						}
+					}
+				}
+				out[k] = w
+			}
+			return out
+		case []interface{}:
+			out := make([]interface{}, len(a))
+			for i, v := range a {
+				out[i] = walk(v)
+			}
+			return out
+		}
+		return x
+	}
+	o, _ := json.Marshal(walk(t))
+	return string(o)
 }
